@@ -185,6 +185,9 @@ def run(ctx):
             impl["psiDP"] = [float(psiDP(float(x))) for x in xs]
             impl["R0"] = float(EoN.estimate_R0(G, tau=float(tau), gamma=float(gamma))) if G.number_of_edges() else None
             impl["R0T"] = float(EoN.estimate_R0(G, transmissibility=float(T))) if G.number_of_edges() else None
+            # a transmissibility of exactly 0 is a number, not "not given": R0 = 0 whatever tau and gamma say
+            impl["R0T0"] = [float(EoN.estimate_R0(G, transmissibility=0.0)), float(EoN.estimate_R0(G, tau=float(tau), gamma=float(gamma), transmissibility=0.0)),
+                            float(EoN.estimate_R0(G, tau=float(tau), gamma=float(gamma), transmissibility=0))] if G.number_of_edges() else None
             impl["ok"] = True
         except Exception as e:
             impl = dict(ok=False, err=err_enum(e))
@@ -254,6 +257,8 @@ def run(ctx):
                 prop.append("psi''(1) != <k^2-k>")
             if m["R0"] is not None and F(m["meank"]) > 0 and not close(impl["R0"], F(rep["T"]) * F(m["meank2mk"]) / F(m["meank"])):
                 prop.append("R0 != T<k^2-k>/<k>")
+            if impl.get("R0T0") is not None and any(x != 0 for x in impl["R0T0"]):
+                prop.append("estimate_R0(transmissibility=0) = %s, not T<k^2-k>/<k> = 0" % impl["R0T0"])
             if prop:
                 ctx.violation("degree helpers: %s" % prop, dict(rep, impl=impl))
             elif bad:
